@@ -225,6 +225,37 @@ Theorem c17_udp_dials_target addr dial_addr d :
 Proof. exact (udp_dials_target addr dial_addr d). Qed.
 Print Assumptions c17_udp_dials_target.
 
+(** ** Time
+
+    The caller's deadline is the only limit udpWithFallback puts on the retry
+    (besides the TCP connection's own query deadline): if the UDP reply (TC set)
+    is there at [t_udp] and the TCP exchange takes [t_tcp], both inside the
+    caller's deadline, the caller gets the TCP reply. *)
+Theorem c17_late_tcp_reply_is_returned q deadline t_udp r t_tcp tcp t :
+  t_udp + t_tcp < deadline -> t_tcp < tcp_query_timeout_ms ->
+  msg_truncated r = Some true -> tcp q = Reply t ->
+  udp_with_fallback_timed q deadline t_udp (Reply r) t_tcp tcp = (RReply t, [q]).
+Proof. exact (timed_tcp_reply q deadline t_udp r t_tcp tcp t). Qed.
+Print Assumptions c17_late_tcp_reply_is_returned.
+
+Theorem c17_caller_deadline_is_an_error q deadline t_udp udp t_tcp tcp :
+  deadline <= t_udp + t_tcp ->
+  (forall r, udp = Reply r -> msg_truncated r = Some true) ->
+  exists e, fst (udp_with_fallback_timed q deadline t_udp udp t_tcp tcp) = RErr e.
+Proof. exact (timed_gives_up q deadline t_udp udp t_tcp tcp). Qed.
+Print Assumptions c17_caller_deadline_is_an_error.
+
+(** ** Retries whose caller gave up never cross replies
+
+    For every sequence of retries (waiting or abandoned) and late replies,
+    starting with no connections: every retry that waits gets the reply the
+    server derived from ITS query ([reply_ok], Proofs/UdpTc.v), because an
+    abandoned connection is not idle until its owed reply has been read
+    ([pool_ok] is invariant). *)
+Theorem c17_no_crossed_replies f es : Forall2 (reply_ok f) es (rrun f rpool0 es).
+Proof. exact (rrun_own_replies f es rpool0 pool0_ok). Qed.
+Print Assumptions c17_no_crossed_replies.
+
 (** Non-vacuity of the above: url host 127.0.0.2 (no port), DialAddr 127.0.0.1:5353. *)
 Example c17_dials_nonvacuous :
   udp_upstream_dials (Addr.lit "udp://127.0.0.2"%string) (Addr.lit "127.0.0.1:5353"%string)
